@@ -5,8 +5,8 @@ use soroban_sdk::{Address, Flat};
 /// property assertion: the runner recognises failed checks by the `PROP:` prefix
 #[macro_export]
 macro_rules! prop {
-    ($c:expr, $name:literal) => {
-        kani::assert($c, concat!("PROP:", $name))
+    ($c:expr, $($name:tt)+) => {
+        kani::assert($c, concat!("PROP:", $($name)+))
     };
 }
 /// reachability witness: the runner requires every cover to be SATISFIED
